@@ -359,6 +359,55 @@ func fragAbsent(g *Gen, n int, o *Out) {
 				}
 			}
 		}
+		// the same forms over EMPTY collections (empty and nil slices, arrays of length 0, empty and nil maps):
+		// nothing is visited, so any = false and all = true whatever the binding form and the body
+		{
+			var nilS []int
+			var nilM map[string]int
+			empties := map[string]interface{}{"es": []interface{}{}, "ns": nilS, "ea": [0]string{}, "em": map[string]interface{}{}, "nm": nilM, "ts": []Inner{}}
+			for _, ek := range []string{"es", "ns", "ea", "em", "nm", "ts"} {
+				if g.r.Intn(2) == 0 {
+					continue
+				}
+				forms := []GColl{{Mode: "default", Def: "x"}, {Mode: "indexvalue", Idx: "k", Val: "x"}, {Mode: "indexvalue", Idx: "k", Val: "k"}, {Mode: "index", Idx: "k"}, {Mode: "value", Val: "x"}, {Mode: "indexvalue", Idx: ek, Val: ek}}
+				c := forms[g.r.Intn(len(forms))]
+				c.Op, c.Path = []string{"all", "any"}[g.r.Intn(2)], []string{ek}
+				c.Inner = []GExpr{GMatch{Path: []string{"x"}, Op: "eq", Raw: "1"}, GMatch{Path: []string{"zz", "q"}, Op: "matches", Raw: "("}}[g.r.Intn(2)]
+				r, text, ok := evalG(g, o, nil, c, empties)
+				want := map[string]string{"all": "T", "any": "F"}[c.Op]
+				if ok && r != want {
+					o.finding(Finding{Property: "C06", Kind: "failing-input", What: c.Op + " over an empty collection gives " + r, Request: lastReq(o), Detail: text})
+					o.finding(Finding{Property: "C01", Kind: "failing-input", What: c.Op + " over an empty collection gives " + r, Request: lastReq(o), Detail: text})
+					o.finding(Finding{Property: "C05", Kind: "failing-input", What: c.Op + " over an empty collection gives " + r, Request: lastReq(o), Detail: text})
+				}
+			}
+		}
+		// an absent key reached THROUGH A QUANTIFIER ALIAS (x.zz where every element is a map lacking zz): each
+		// element gives the operator's absent-key value, so any and all give that value; with an unknown value
+		// u, as if every element held u
+		{
+			els := []interface{}{map[string]interface{}{"a": 1.0}, map[string]interface{}{"b": "x"}}
+			lm := map[string]interface{}{"svc": els, "ms": map[string]interface{}{"p": map[string]interface{}{"a": 1.0}, "q": map[string]interface{}{}}, "typed": []map[string]string{{"a": "1"}, {}}}
+			cp := [][]string{{"svc"}, {"ms"}, {"typed"}}[g.r.Intn(3)]
+			op := matchOps[g.r.Intn(len(matchOps))]
+			mode := []GColl{{Mode: "default", Def: "x"}, {Mode: "indexvalue", Idx: "k", Val: "x"}, {Mode: "value", Val: "x"}}[g.r.Intn(3)]
+			if cp[0] == "ms" && mode.Mode == "default" {
+				mode = GColl{Mode: "indexvalue", Idx: "k", Val: "x"} // the one-name form binds the KEY of a map
+			}
+			c := mode
+			c.Op, c.Path = []string{"all", "any"}[g.r.Intn(2)], cp
+			c.Inner = GMatch{Path: []string{"x", "zz"}, Op: op, Raw: []string{"1", "x", "", "a.*"}[g.r.Intn(4)], Contains: g.r.Intn(2) == 0}
+			r, text, ok := evalG(g, o, nil, c, lm)
+			if ok && r != absentTable[op] {
+				o.finding(Finding{Property: "C05", Kind: "failing-input", What: fmt.Sprintf("absent map key through a quantifier alias: %s of %s gives %s, documented %s", c.Op, op, r, absentTable[op]), Request: lastReq(o), Detail: text})
+			}
+			ru, _, oku := evalG(g, o, []OptSpec{{Kind: "unk", Unk: "x"}}, c, lm)
+			direct := GMatch{Path: []string{"u"}, Op: op, Raw: c.Inner.(GMatch).Raw, Contains: c.Inner.(GMatch).Contains}
+			rd, _, okd := evalG(g, o, nil, direct, map[string]interface{}{"u": "x"})
+			if oku && okd && ru != rd && ru != "P" {
+				o.finding(Finding{Property: "C05", Kind: "failing-input", What: fmt.Sprintf("unknown value through a quantifier alias: %s of %s gives %s, but %s on a key holding that value", c.Op, op, ru, rd), Request: lastReq(o), Detail: text})
+			}
+		}
 		// error cases: absent top-level key, absent intermediate, index out of range, step into a scalar
 		errPaths := [][]string{{"zz"}, {"zz", "a"}, {"m", "zz", "a"}, {"m", "a", "x"}}
 		for _, p := range paths {
@@ -1240,6 +1289,14 @@ func matrixShapes() []shape {
 		{"struct", Inner{}}, {"*struct", &Inner{}}, {"nil*struct", (*Inner)(nil)}, {"Wrap", Wrap{V: 1}},
 		{"chan", make(chan int)}, {"nil-chan", (chan int)(nil)}, {"func", func() {}}, {"nil-func", (func())(nil)}, {"unsafe", unsafePtrOf(&one)},
 		{"nil-iface-field", nilIface},
+		// every scalar kind side by side in one interface-typed list, in both orders (a literal converted once
+		// for the first element's kind and reused for the next would show here), and structs of different
+		// types side by side (a field present in one element and not in the next)
+		{"[]interface{}-all-kinds", []interface{}{1.0, float32(1), 1, int8(1), uint16(1), uint64(1), "1", true, MyInt(1), jsonNumber("1"), MyStr("1"), MyFloat32(1), int64(1), uint8(1)}},
+		{"[]interface{}-all-kinds-reversed", []interface{}{uint8(1), int64(1), MyFloat32(1), MyStr("1"), jsonNumber("1"), MyInt(1), true, "1", uint64(1), uint16(1), int8(1), 1, float32(1), 1.0}},
+		{"[]interface{}-floats", []interface{}{0.25, float32(1.5), 1.5, float32(0.25)}}, {"[2]interface{}-floats", [2]interface{}{float32(1.5), 1.5}},
+		{"[]interface{}-mixed-structs", []interface{}{struct{ Name string }{"1"}, struct{ N int }{1}, Wrap{V: 1}, map[string]interface{}{"Name": "1"}, &struct{ Name string }{"a"}}},
+		{"[]interface{}-mixed-structs-2", []interface{}{struct{ N int }{1}, struct{ Name string }{"1"}}},
 		// values outside the modelled universe (the model answers U for a step that needs them; the
 		// real code must still return normally): maps keyed by pointers, arrays, structs, complex numbers,
 		// channels, interface keys of those kinds and a nil key; pointers to interfaces; non-empty
@@ -1350,9 +1407,13 @@ func fragMatrix(g *Gen, n int, o *Out) {
 				}
 			}
 			// quantifiers and negation over the shape
-			for _, cop := range []string{"all", "any"} {
+			for ci, cop := range []string{"all", "any", "all", "any"} {
 				c := GColl{Op: cop, Path: sels[hi], Mode: []string{"default", "indexvalue"}[g.r.Intn(2)], Def: "x", Idx: "k", Val: "x",
 					Inner: GMatch{Path: []string{"x"}, Op: matchOps[g.r.Intn(len(matchOps))], Raw: "1", LitStyle: 2}, SelStyle: map[bool]int{true: 2, false: 1}[hi == 2]}
+				if ci >= 2 {
+					// a body that names a field / key of the element
+					c.Inner = GMatch{Path: []string{"x", []string{"Name", "V", "N", "1"}[g.r.Intn(4)]}, Op: matchOps[g.r.Intn(len(matchOps))], Raw: "1", LitStyle: 2}
+				}
 				for _, e := range []GExpr{c, GNot{c}} {
 					r, text, ok := evalG(g, o, nil, e, h)
 					if ok && (r == "P" || r == "E1") {
